@@ -11,6 +11,8 @@ def fr(h):
     return F(f(h))
 def vec(s):
     return [] if s in ("-", "") else [fr(x) for x in s.split(",")]
+def finite(s):
+    return all(abs(f(x)) < float("inf") for x in s.split(",")) if s not in ("-", "") else True
 
 EPS = F(1, 2 ** 52)
 C = 64   # |A x - b| <= C * n * eps * |A| |x|  (componentwise, with the usual LU growth allowance folded into C)
@@ -60,7 +62,10 @@ def main():
                 else:
                     if zero_col: why, key = "matrix with a zero column accepted", "c16-singular"
                     elif small_int and det(A, n) == 0: why, key = "singular small-integer matrix accepted", "c16-singular"
-                    fac = vec(rw[1])
+                    fac = vec(rw[1]) if finite(rw[1]) else None
+                    if fac is None:
+                        why, key = "lu_decomp accepts the matrix but its factors are not finite", "c16-nonfinite-solution"
+                        fac = [F(0)] * (n * n)
                     # multipliers (strict lower triangle) at most 1 in magnitude
                     for i in range(n):
                         for j in range(i):
@@ -72,6 +77,10 @@ def main():
             if why or rows != cols or iplen != rows:
                 print(json.dumps({"kind": "lu", "op": "dec", "n": rows, "ok": not why, "why": why, "finding_key": key, "input": o[:300]}))
                 nchk += 1
+        elif w[0] == "sol" and cur is not None and not finite(rw[1]):
+            print(json.dumps({"kind": "lu", "op": "sol", "n": cur[0], "ok": False, "finding_key": "c16-nonfinite-solution",
+                              "why": "nonsingular matrix accepted by lu_decomp, but lin_solve returns a non-finite solution", "input": o[:300]}))
+            nchk += 1
         elif w[0] == "sol" and cur is not None:
             n, A = cur
             b = vec(w[4])
@@ -106,8 +115,28 @@ def main():
                         elif i < n: big[i][j] = -ai[ii * n + jj]
                         else: big[i][j] = ai[ii * n + jj]
                 cur = ("c", n, ar, ai) if det(big, 2 * n) != 0 else None
+                # stored multipliers of the complex factorisation: the pivot is chosen by |re| + |im| (Hairer's DECC), which
+                # bounds the modulus of a multiplier by sqrt 2, not by 1 (open finding c16-complex-multiplier); anything beyond
+                # sqrt 2 is a different matter
+                if not (finite(rw[1]) and finite(rw[2])):
+                    print(json.dumps({"kind": "lu", "op": "decc", "n": n, "ok": False, "finding_key": "c16-nonfinite-solution", "why": "lu_decomp_complex accepts the matrix but its factors are not finite", "input": o[:300]}))
+                    continue
+                fr, fi = vec(rw[1]), vec(rw[2])
+                worst2 = F(0)
+                for i in range(n):
+                    for j in range(i):
+                        worst2 = max(worst2, fr[i * n + j] ** 2 + fi[i * n + j] ** 2)
+                if worst2 > 2 * (1 + 8 * EPS):
+                    print(json.dumps({"kind": "lu", "op": "decc", "n": n, "ok": False, "finding_key": "c16-complex-multiplier-bound", "why": "complex multiplier of modulus %.6f exceeds sqrt 2" % float(worst2) ** 0.5, "input": o[:300]}))
+                elif worst2 > 1 + 8 * EPS:
+                    print(json.dumps({"kind": "lu", "op": "decc", "n": n, "ok": False, "finding_key": "c16-complex-multiplier", "why": "complex multiplier of modulus %.6f exceeds 1 (pivoting by |re| + |im|)" % float(worst2) ** 0.5, "input": o[:300]}))
+                nchk += 1
             elif iplen != n and rw[:2] != ["err", "PivotSizeMismatch"]:
                 print(json.dumps({"kind": "lu", "op": "decc", "n": n, "ok": False, "why": "wrong pivot length not rejected", "finding_key": "c16-shape"}))
+        elif w[0] == "solc" and cur is not None and cur[0] == "c" and not (finite(rw[1]) and finite(rw[2])):
+            print(json.dumps({"kind": "lu", "op": "solc", "n": cur[1], "ok": False, "finding_key": "c16-nonfinite-solution",
+                              "why": "nonsingular complex matrix accepted by lu_decomp_complex, but lin_solve_complex returns a non-finite solution", "input": o[:300]}))
+            nchk += 1
         elif w[0] == "solc" and cur is not None and cur[0] == "c":
             _, n, ar, ai = cur
             br, bi = vec(w[5]), vec(w[6])
